@@ -295,6 +295,8 @@ def run_reads(case, prefix, seed):
     g = grid.Grid(S, chooser=ch, fault_kinds=tuple(case.get("fault_kinds", ())),
                   client_kw=dict(k=case["k"], n=case["n"], happy=1, max_segment_size=case["seg"]))
     g.sched.batch = bool(case.get("batch"))     # turn granularity, see grid.Sched.batch
+    if case.get("cpu"):
+        g.sched.cpu_events()     # thread-pool work completes as a scheduled event, see grid.Sched.cpu_events
     viol, obs = [], {"outcomes": []}
     try:
         placement = {int(sh): list(svs) for sh, svs in case["placement"].items()}
